@@ -3,30 +3,10 @@
    marker state machine run over the changed tokens; hence it conserves the serialisation of
    the chosen page and never puts a block-level chunk inside a marker. *)
 From Coq Require Import List NArith Arith Bool String Lia.
-From WMD Require Import Gen.Tables Lib.Str Lib.PyChars Lib.Escape Lib.Difflib Model.RenderTokens Model.RenderMerge
+From WMD Require Import Gen.Tables Lib.Str Lib.PyChars Lib.Escape Lib.Difflib Model.RenderTokens Model.RenderMerge Model.RenderLabelled
      Proofs.DifflibProofs Proofs.MergeProofs Proofs.TokenProofs.
 Import ListNotations.
 Open Scope N_scope.
-
-Definition is_equal (t : tag) : bool := match t with Equal => true | _ => false end.
-Definition does_insert (t : tag) : bool := match t with Insert | Replace => true | _ => false end.
-Definition does_delete (t : tag) : bool := match t with Delete | Replace => true | _ => false end.
-
-(* contribution of one opcode to the "insertions" (new_side = true) or "deletions" view *)
-Definition single_l (new_side : bool) (old new : list token) (o : opcode) : list ochunk :=
-  let '(t, (i1, i2), (j1, j2)) := o in
-  let side := if new_side then slice_tokens new j1 j2 else slice_tokens old i1 i2 in
-  match t with
-  | Equal => map OSrc (expand_tokens true side)
-  | _ => if (if new_side then does_insert t else does_delete t)
-         then merge_changes_l (expand_tokens false side) None else []
-  end.
-
-Definition view_l (new_side : bool) (old new : list token) (ops : list opcode) : list ochunk :=
-  flat_map (single_l new_side old new) ops.
-
-Definition side_mode (new_side : bool) : mode := if new_side then MInsertions else MDeletions.
-Definition side_tag (new_side : bool) : str := if new_side then s2l "ins" else s2l "del".
 
 Lemma reconcile_nothing : reconcile_change_groups [] [] = [].
 Proof. reflexivity. Qed.
@@ -82,9 +62,6 @@ Proof.
 Qed.
 
 (* ------------------------------------------------------------------ conservation of the chosen page *)
-Definition blank (s : str) : bool := match s with [] => true | [c] => N.eqb c 32 | _ => false end.
-Definition nb (l : list str) : list str := filter (fun s => negb (blank s)) l.
-
 Lemma nb_app a b : nb (a ++ b) = nb a ++ nb b.
 Proof. unfold nb. apply filter_app. Qed.
 
